@@ -334,8 +334,8 @@ def monitor_c06(sc, obs):
 def monitor_c08(sc, obs):
     v = []
     ents, groups = _ents(sc)
-    if any(x[0] == 'now' and x[1][0] == 'set_upstream' for x in sc['ext']):
-        return v
+    if any(x[0] == 'now' and x[1][0] == 'rewire' for x in sc['ext']) or any(u[0] == 'rewire' for ops in sc['uops'] for u in ops):
+        return v      # the configured connections change during the run: the history checks below read the final layout only
     kinds = {d: e['kind'] for d, e in ents.items()}
     has_batches = any(e['kind'] == 'batcher' or e.get('gen_batch', 0) > 0 for e in sc['entities'])
     gouts_of = {}
